@@ -123,6 +123,8 @@ pub mod repofile;
 pub(crate) mod repository;
 /// Virtual File System support - allows to act on the repository like on a file system
 pub mod vfs;
+#[cfg(feature = "verif-hooks")]
+pub mod verif;
 
 // re-export jiff
 pub use jiff;
